@@ -834,7 +834,8 @@ fn sub_sibling_subsets(tier: Tier) -> Sub {
     let cs = combos(2, tier.pick(5, 6));
     // index space: combo x mask (2^n, n <= 6 -> 64 slots, masks >= 2^n are folded by modulo and skipped) x pad x form
     let len = cs.len() as u64 * 64 * 2 * 2;
-    let bound = format!("every tree with 2..={} nodes x leaf flags x EVERY subset of entries carrying DW_AT_sibling x padding {{0,1}} x form {{ref4, ref_udata}}", tier.pick(5, 6));
+    let seq_len = tier.pick(5u32, 6u32);
+    let bound = format!("every tree with 2..={} nodes x leaf flags x EVERY subset of entries carrying DW_AT_sibling x padding {{0,1}} x form {{ref4, ref_udata}}; all traversal styles plus every tree-API sequence of length <= {} from the root", tier.pick(5, 6), seq_len);
     Sub::new("sibling-subsets", len, &bound, move |ctx, i| {
         let mut mx = Mix(i);
         let form = [F_REF4, F_REF_UDATA][mx.take(2) as usize];
@@ -854,6 +855,9 @@ fn sub_sibling_subsets(tier: Tier) -> Sub {
         }
         let Some(p) = parse_and_check_headers(ctx, &b) else { return };
         check_traversals(ctx, &b, &b.units[0], &p.headers[0], &p.abbrevs[0], true);
+        // partial tree walks: the sibling fast path must also be right on entries below
+        // the level being iterated
+        treeapi::check_root_sequences(ctx, &b, &b.units[0], &p.headers[0], &p.abbrevs[0], seq_len);
         ctx.nontriv(1);
     })
 }
